@@ -9,6 +9,7 @@ package controller
 //@ pure nearestIn(a []int, x int, t int) bool = (exists k :: 0 <= k && k < len(a) && a[k] == x) && (forall j :: 0 <= j && j < len(a) ==> abs(a[j] - t) >= abs(x - t))
 
 //@ func (*DefaultFanController).findClosestDistinctTarget
+//@   params (f, target)
 //@   props C12
 //@   requires mapInv(f) && util.inInt32(target)
 //@   ensures[C12.nearest C01 C05] nearestIn(distinct(f), result, target)
@@ -17,17 +18,20 @@ package controller
 //@   modifies nothing
 
 //@ func (*DefaultFanController).applyPwmMapping
+//@   params (f, target)
 //@   props C12
 //@   ensures result == f.pwmMap[target]
 //@   modifies nothing
 
 //@ func (*DefaultFanController).getPwm
+//@   params (f)
 //@   requires fans.fanWF(f.fan)
 //@   ensures[C05.read] f.fan is *fans.HwMonFan && result1 == nil && supportsResult[fans.FeaturePwmSensor] ==> result0 == fileInt[fans.hwPwmPath(f.fan.(*fans.HwMonFan))]
 //@   modifies f.fan.(*fans.HwMonFan).Pwm, f.fan.(*fans.FileFan).Pwm, f.fan.(*fans.CmdFan).Pwm, procWorld, started, lastReadFailed, supportsResult
 
 //@ ghost var setOK gmap[int]bool
 //@ func (*DefaultFanController).setPwm
+//@   params (f, target)
 //@   props C12
 //@   ghostret setOK[f] := err == nil
 //@   ensures setOK[f] == (err == nil)
@@ -42,6 +46,7 @@ package controller
 //@   modifies setOK, f.lastSetPwm, pwmWrites, lastPwm, lastPwmErr, fileInt, procWorld, started, lastReadFailed, supportsResult, f.fan.(*fans.HwMonFan).Pwm, f.fan.(*fans.FileFan).Pwm, f.fan.(*fans.CmdFan).Pwm
 
 //@ func (*DefaultFanController).updateDistinctPwmValues
+//@   params (f)
 //@   props C12
 //@   requires fans.fanWF(f.fan)
 //@   requires[nosentinel -C15 -C16] forall k :: k in f.pwmMap ==> f.pwmMap[k] != -1
@@ -60,10 +65,12 @@ package controller
 //@ pure ctrlInv(f *DefaultFanController) bool = fans.fanWF(f.fan) && control_loop.loopWF(f.controlLoop) && f.curve != nil && 0 <= fans.fanMin(f.fan) && 0 <= f.minPwmOffset && floorOf(f) <= fans.fanMax(f.fan) && fans.fanMax(f.fan) <= 255 && (f.pwmMap != nil ==> mapInv(f)) && (f.lastSetPwm != nil ==> util.inInt32(*f.lastSetPwm))
 
 //@ func (*DefaultFanController).increaseMinPwmOffset
+//@   params (f)
 //@   ensures f.minPwmOffset == old(f.minPwmOffset) + 1
 //@   modifies f.minPwmOffset, f.stats.MinPwmOffset, f.stats.IncreasedMinPwmCount
 
 //@ func (*DefaultFanController).ensureNoThirdPartyIsMessingWithUs
+//@   params (f)
 //@   props C05
 //@   requires fans.fanWF(f.fan) && (f.pwmMap != nil ==> mapInv(f)) && (f.lastSetPwm != nil ==> util.inInt32(*f.lastSetPwm))
 //@   ensures f.stats.UnexpectedPwmValueCount >= old(f.stats.UnexpectedPwmValueCount) && f.stats.UnexpectedPwmValueCount <= old(f.stats.UnexpectedPwmValueCount) + 1
@@ -73,6 +80,7 @@ package controller
 
 //@ pure rescaleOf(v int, lo int, hi int) int = lo + int((float64(v) / 255.0) * (float64(hi) - float64(lo)))
 //@ func (*DefaultFanController).calculateTargetPwm
+//@   params (f)
 //@   props C01 C02 C10 C04 C07
 //@   returns (target, err)
 //@   split f.fan
@@ -100,6 +108,7 @@ package controller
 
 //@ ghost var modeVerified gmap[int]bool
 //@ func trySetManualPwm
+//@   params (fan)
 //@   props C05
 //@   requires fans.fanWF(fan)
 //@   ghostret modeVerified[fan] := fan is *fans.HwMonFan && result == nil && supportsResult[fans.FeatureControlMode] && !lastReadFailed && lastMode[fan] == 1
@@ -110,6 +119,7 @@ package controller
 //@   modifies modeWrites, lastMode, fileInt, lastReadFailed, supportsResult, modeVerified
 
 //@ func (*DefaultFanController).UpdateFanSpeed
+//@   params (f)
 //@   props C01 C02 C05 C10 C09
 //@   split f.fan
 //@   safety C09
@@ -132,6 +142,7 @@ package controller
 
 // ---- RPM monitor step and stall handling (C10) ---------------------------------------------------------
 //@ func (*DefaultFanController).measureRpm
+//@   params (f, fan)
 //@   props C10 C09
 //@   split fan
 //@   requires fans.fanWF(fan) && same(f.fan, fan) && configuration.CurrentConfig.RpmRollingWindowSize >= 1 && configuration.CurrentConfig.RpmRollingWindowSize <= 1000000000
@@ -148,6 +159,7 @@ package controller
 //@ pure modeRestored(f *DefaultFanController) bool = f.fan is *fans.HwMonFan && f.originalPwmEnabled != fans.ControlModePWM && supportsResult[fans.FeatureControlMode] && (fileInt[fans.hwEnablePath(f.fan.(*fans.HwMonFan))] == f.originalPwmEnabled || lastReadFailed)
 
 //@ func (*DefaultFanController).restorePwmEnabled
+//@   params (f)
 //@   props C03 C09
 //@   split f.fan
 //@   requires fans.fanWF(f.fan)
@@ -203,6 +215,7 @@ package controller
 //@   trusted "printing has no effect on program state"
 
 //@ func (*DefaultFanController).computePwmMapAutomatically
+//@   params (f)
 //@   props C16
 //@   safety none
 //@   requires f != nil && fans.fanWF(f.fan)
@@ -214,6 +227,7 @@ package controller
 //@     invariant pwmMap != nil && fresh(pwmMap) && fans.fanWF(f.fan) && f.fan == old(f.fan)
 
 //@ func (*DefaultFanController).doComputePwmMap
+//@   params (f)
 //@   props C15 C16
 //@   safety none
 //@   requires f != nil && fans.fanWF(f.fan) && f.persistence != nil && persistence.dbWF()
@@ -226,6 +240,7 @@ package controller
 //@   modifies dbBucket, dbHas, dbVal, txBucket, txHas, txVal, txStarted, txCommits, decodeFailed, mapLoadCount, mapLoadOK, mapLoadRes
 
 //@ func (*DefaultFanController).computePwmMap
+//@   params (f)
 //@   props C15 C16
 //@   safety none
 //@   requires f != nil && fans.fanWF(f.fan) && f.persistence != nil && persistence.dbWF()
@@ -239,10 +254,12 @@ package controller
 //@   modifies dbBucket, dbHas, dbVal, txBucket, txHas, txVal, txStarted, txCommits, decodeFailed, mapLoadCount, mapLoadOK, mapLoadRes, held, unlocks
 
 //@ opaque func (*DefaultFanController).waitForFanToSettle
+//@   params (f, fan)
 //@   modifies fan.(*fans.FileFan).Rpm, fan.(*fans.CmdFan).Rpm, procWorld, started, lastReadFailed, lastRpmRead
 //@   trusted "polls the RPM input until ten consecutive differences are small; body not verified (rolling-window library), termination not claimed"
 
 //@ func (*DefaultFanController).RunInitializationSequence
+//@   params (f)
 //@   props C15 C16
 //@   requires[C16.entry C16] !(addrof(InitializationSequenceMutex) in held)
 //@   atcall[C16.measure] setPwm: serialised()
@@ -269,6 +286,7 @@ package controller
 //@   trusted "runs all registered actors until the first returns, interrupts the others and waits for all of them; regulation happens in here"
 
 //@ func (*DefaultFanController).Run
+//@   params (f, ctx)
 //@   props C15 C16
 //@   requires[C16.entry C16] !(addrof(InitializationSequenceMutex) in held)
 //@   dispatchonly C15 C16
@@ -280,6 +298,7 @@ package controller
 //@   modifies anything
 
 //@ func NewFanController
+//@   params (persistence, fan, controlLoop, updateRate)
 //@   requires fans.fanWF(fan)
 //@   ensures result is *DefaultFanController && result.(*DefaultFanController) != nil && fresh(result.(*DefaultFanController))
 //@   ensures result.(*DefaultFanController).fan == fan && result.(*DefaultFanController).persistence == persistence && result.(*DefaultFanController).pwmMap == nil
@@ -287,6 +306,7 @@ package controller
 
 // ---- constant curve value (C04) and monotone request (C07): lemmas over the request formula --------------------
 //@ func lemmaRescale
+//@   params (v1, v2, lo, hi)
 //@   props C04 C07
 //@   requires 0 <= v1 && v1 <= v2 && v2 <= 255 && 0 <= lo && lo <= hi && hi <= 255
 //@   ensures[C04.min] rescaleOf(0, lo, hi) == lo
@@ -296,6 +316,7 @@ package controller
 //@   modifies nothing
 
 //@ func lemmaLimitedSteady
+//@   params (l, c, current, lo, hi)
 //@   props C04
 //@   requires l != nil && l.maxPwmChangePerCycle != nil && *l.maxPwmChangePerCycle >= 1 && *l.maxPwmChangePerCycle <= 255
 //@   requires 0 <= c && c <= 255 && 0 <= lo && lo < hi && hi <= 255 && current == rescaleOf(c, lo, hi)
